@@ -10,9 +10,9 @@ import (
 func TestC09(t *testing.T) {
 	r := lib.Start("C09", "exploration")
 
-	nLong := r.N(3, 60)
-	nShort := r.N(160, 6000)
-	nStress := r.N(4, 60)
+	nLong := r.N(3, 40)
+	nShort := r.N(160, 2400)
+	nStress := r.N(4, 40)
 	if r.Race {
 		// the race detector is the observer of this workload: do not scale it away
 		nStress = 2
